@@ -457,6 +457,22 @@ func (g *vtC15GenState) keyset() []int64 {
 func (g *vtC15GenState) fresh(parent int64) vtC15Payload {
 	r := g.r
 	p := vtC15Payload{plabel: parent}
+	if g.style == "deep" && r.Intn(8) != 0 {
+		// uniform dimensions, roomy parents, small leaves: re-parenting is usually admissible
+		p.isParent = r.Intn(4) != 0
+		for k := int64(0); k < 2; k++ {
+			p.max = append(p.max, [2]int64{k, 100})
+			mn := int64(r.Intn(3))
+			if p.isParent {
+				mn = int64(6 + r.Intn(10))
+			}
+			if room, ok := g.room(parent, -5, k); ok && room < mn && r.Intn(6) != 0 {
+				mn = room
+			}
+			p.min = append(p.min, [2]int64{k, mn})
+		}
+		return p
+	}
 	keys := g.keyset()
 	var pp *vtC15Payload
 	if parent > 0 {
@@ -520,7 +536,7 @@ func (g *vtC15GenState) fresh(parent int64) vtC15Payload {
 	case 2, 3, 4:
 		p.sw = 1
 	}
-	if r.Intn(4) == 0 {
+	if r.Intn(3) == 0 {
 		n := 1 + r.Intn(2)
 		for i := 0; i < n; i++ {
 			if r.Intn(12) == 0 {
@@ -631,9 +647,35 @@ func (g *vtC15GenState) mutate(name int64, old vtC15Payload) vtC15Payload {
 		n = 2
 	}
 	for i := 0; i < n; i++ {
-		switch r.Intn(12) {
+		x := r.Intn(14)
+		if g.style == "deep" && r.Intn(2) == 0 {
+			x = 0
+		}
+		switch x {
+		case 12, 13: // change the namespaces (often to one somebody else declares)
+			switch r.Intn(4) {
+			case 0:
+				p.ns = nil
+			case 1:
+				if len(p.ns) > 0 {
+					p.ns = p.ns[:len(p.ns)-1]
+				}
+			default:
+				var taken []int64
+				for id, c := range g.store {
+					if id != name {
+						taken = append(taken, c.ns...)
+					}
+				}
+				sort.Slice(taken, func(i, j int) bool { return taken[i] < taken[j] })
+				if len(taken) > 0 && r.Intn(2) == 0 {
+					p.ns = append(p.ns, g.pick(taken))
+				} else {
+					p.ns = append(p.ns, int64(1000+r.Intn(4)))
+				}
+			}
 		case 0, 1, 2: // re-parent
-			if r.Intn(3) != 0 {
+			if r.Intn(3) != 0 || g.style == "deep" {
 				// a parent that fits: same dimensions and tree (descendants included: cycle attempts)
 				var fit []int64
 				for _, id := range g.live() {
@@ -653,11 +695,18 @@ func (g *vtC15GenState) mutate(name int64, old vtC15Payload) vtC15Payload {
 				}
 				if len(fit) > 0 {
 					p.plabel = g.pick(fit)
+					var keep [][2]int64
 					for j := range p.min {
-						if room, ok := g.room(p.plabel, name, p.min[j][0]); ok && room < p.min[j][1] && r.Intn(6) != 0 {
+						room, ok := g.room(p.plabel, name, p.min[j][0])
+						if !ok && r.Intn(6) != 0 {
+							continue // the new parent declares no min in this dimension
+						}
+						if ok && room < p.min[j][1] && r.Intn(6) != 0 {
 							p.min[j][1] = room
 						}
+						keep = append(keep, p.min[j])
 					}
+					p.min = keep
 					continue
 				}
 			}
@@ -767,7 +816,7 @@ func (g *vtC15GenState) pods(target int64, ns []int64) [][2]int64 {
 
 func vtC15Gen(r *rand.Rand, i int) (string, []int64) {
 	g := &vtC15GenState{r: r, qt: NewQuotaTopology(nil), store: map[int64]vtC15Payload{}}
-	g.style = []string{"small", "small", "small", "small", "large", "special"}[r.Intn(6)]
+	g.style = []string{"small", "small", "small", "deep", "deep", "large", "special"}[r.Intn(7)]
 	maxOps := 10
 	if os.Getenv("VERIF_TIER") == "thorough" && r.Intn(4) == 0 {
 		maxOps = 24
@@ -775,6 +824,11 @@ func vtC15Gen(r *rand.Rand, i int) (string, []int64) {
 	nops := 2 + r.Intn(maxOps)
 	in := []int64{int64(nops)}
 	names := []int64{3, 4, 5, 6, 7}
+	if g.style == "deep" {
+		names = []int64{3, 4, 5, 6, 7, 8}
+		nops += 3
+		in[0] = int64(nops)
+	}
 	for j := 0; j < nops; j++ {
 		live := g.live()
 		op := vtC15Op{}
@@ -848,3 +902,96 @@ func vtC15Gen(r *rand.Rand, i int) (string, []int64) {
 }
 
 func TestVerifC15(t *testing.T) { vtMain(t, "C15", vtC15Gen, vtC15Exec) }
+
+// ---- exhaustive stream: case i is the i-th request sequence (shortest first) over the names
+// {3,4,5}: create with parent in {root, the two other names} x is-parent x min in {1,2} (one
+// dimension, max 2); update = the stored object with one field changed (parent / is-parent /
+// min); delete. Sequences start with a create (on the empty record the others are no-ops). ----
+
+func vtC15ExhPayload(parent int64, isParent bool, mn int64) vtC15Payload {
+	return vtC15Payload{plabel: parent, isParent: isParent, min: [][2]int64{{0, mn}}, max: [][2]int64{{0, 2}}}
+}
+
+func vtC15ExhOthers(name int64) [2]int64 {
+	switch name {
+	case 3:
+		return [2]int64{4, 5}
+	case 4:
+		return [2]int64{3, 5}
+	}
+	return [2]int64{3, 4}
+}
+
+const (
+	vtC15ExhAdds  = 36 // 3 names x 12 payloads
+	vtC15ExhOps   = 57 // 3 names x (12 creates + 6 updates + 1 delete)
+	vtC15ExhLen2  = vtC15ExhAdds * vtC15ExhOps
+	vtC15ExhLen3  = vtC15ExhAdds * vtC15ExhOps * vtC15ExhOps
+	vtC15ExhTotal = vtC15ExhAdds + vtC15ExhLen2 + vtC15ExhLen3
+)
+
+// op number c (0..56) against the store
+func vtC15ExhOp(c int, store map[int64]vtC15Payload) vtC15Op {
+	name := int64(3 + c/19)
+	v := c % 19
+	oth := vtC15ExhOthers(name)
+	parents := []int64{-1, oth[0], oth[1]}
+	switch {
+	case v < 12:
+		return vtC15Op{kind: 0, name: name, newP: vtC15ExhPayload(parents[v/4], (v/2)%2 == 1, int64(1+v%2))}
+	case v < 18:
+		old, ok := store[name]
+		if !ok {
+			old = vtC15ExhPayload(-1, false, 1)
+		}
+		nw := vtC15CopyPayload(old)
+		switch u := v - 12; u {
+		case 0, 1, 2:
+			nw.plabel = parents[u]
+		case 3:
+			nw.isParent = !nw.isParent
+		default:
+			nw.min = [][2]int64{{0, int64(u - 3)}}
+		}
+		return vtC15Op{kind: 1, name: name, oldP: old, newP: nw}
+	}
+	old, ok := store[name]
+	if !ok {
+		old = vtC15ExhPayload(-1, false, 1)
+	}
+	return vtC15Op{kind: 2, name: name, newP: old}
+}
+
+func vtC15ExhGen(r *rand.Rand, i int) (string, []int64) {
+	i = i % vtC15ExhTotal
+	var codes []int
+	switch {
+	case i < vtC15ExhAdds:
+		codes = []int{(i/12)*19 + i%12}
+	case i < vtC15ExhAdds+vtC15ExhLen2:
+		j := i - vtC15ExhAdds
+		a := j / vtC15ExhOps
+		codes = []int{(a/12)*19 + a%12, j % vtC15ExhOps}
+	default:
+		j := i - vtC15ExhAdds - vtC15ExhLen2
+		a := j / (vtC15ExhOps * vtC15ExhOps)
+		codes = []int{(a/12)*19 + a%12, (j / vtC15ExhOps) % vtC15ExhOps, j % vtC15ExhOps}
+	}
+	qt := NewQuotaTopology(nil)
+	store := map[int64]vtC15Payload{}
+	in := []int64{int64(len(codes))}
+	for _, c := range codes {
+		op := vtC15ExhOp(c, store)
+		in = append(in, vtC15EncOp(op)...)
+		if vtC15Apply(qt, op) {
+			if op.kind == 2 {
+				delete(store, op.name)
+			} else {
+				store[op.name] = vtC15CopyPayload(op.newP)
+			}
+		}
+	}
+	return fmt.Sprintf("len%d", len(codes)), in
+}
+
+func TestVerifC15Exh(t *testing.T) { vtMain(t, "C15", vtC15ExhGen, vtC15Exec) }
